@@ -58,7 +58,13 @@ IsErr(p) == "err" \in DOMAIN p
 POfV(v) == IF v.t = "real" THEN PR(MkReal(v.s, v.e, v.m)) ELSE PX(QOf(v))
 \* mode 1: an exact number is converted by one correctly rounded division; mode 2: numerator and denominator
 \* are converted first and then divided (the two agree unless a component exceeds 2^24)
-PRealM(p, mode) == IF ~p.x THEN p.r ELSE IF mode = 1 THEN RealOfQ(p.q) ELSE RealOfRatioTwoStep(p.q.n, p.q.d)
+\* the implementation keeps every exact partial result in lowest terms with a positive denominator: the component-wise
+\* conversion rounds THOSE components (625617846/4386 is held as 104269641/731)
+QLowest(q) == LET g == MagGcd(q.n.mag, q.d.mag) IN
+              IF g = <<>> \/ g = <<1>> THEN [n |-> Mk(q.n.neg # q.d.neg, q.n.mag), d |-> Mk(FALSE, q.d.mag)]
+              ELSE [n |-> Mk(q.n.neg # q.d.neg, MagDivMod(q.n.mag, g)[1]), d |-> Mk(FALSE, MagDivMod(q.d.mag, g)[1])]
+PRealM(p, mode) == IF ~p.x THEN p.r ELSE IF mode = 1 THEN RealOfQ(p.q)
+                   ELSE LET l == QLowest(p.q) IN RealOfRatioTwoStep(l.n, l.d)
 PReal(p) == PRealM(p, 1)
 PBinM(op, a, b, mode) ==
   IF IsErr(a) THEN a ELSE IF IsErr(b) THEN b
